@@ -318,6 +318,7 @@ type LtxObs struct {
 	Ids    []int `json:"ids"`  // page ids, parallel to Pgs
 	Full   bool  `json:"full"` // contains every page 1..commit except the lock page
 	TS     int64 `json:"ts"`   // header timestamp (ms)
+	Salt1  int64 `json:"salt1"`  // WAL salt-1 recorded in the header (generation arithmetic: a restart adds one)
 	Fetched bool `json:"fetched"` // byte-identical copy of a file that was already on the replica before this step (baseline fetch)
 	Err    string `json:"err"`
 }
@@ -344,6 +345,7 @@ func DecodeLTX(r io.Reader, level int, ps int, d *Dict) LtxObs {
 	if h.WALSalt1 != 0 || h.WALSalt2 != 0 {
 		o.Gen = d.Gen(h.WALSalt1, h.WALSalt2)
 	}
+	o.Salt1 = int64(h.WALSalt1)
 	buf := make([]byte, h.PageSize)
 	have := map[uint32]bool{}
 	for {
@@ -418,4 +420,57 @@ func InspectDBFile(path string, ps int, d *Dict, tmpDir string) (st DBState, app
 	}
 	app, _, seq, lockN, err = AppContent(db, d)
 	return
+}
+
+
+// PreState is everything litestream's verify()/sync() read, observed just before a litestream call: the physical WAL
+// slot by slot, the database file, the last local level-0 file and the in-memory flag. Trace_CoreSync.tla feeds it to
+// Core.tla's own operators (Verify, SyncResult) and compares their prediction with the file the real code wrote.
+type PreState struct {
+	Has    bool    `json:"has"`
+	Wal    [][]int `json:"wal"`   // per slot: pg, page id, commit, salt-1 of the frame
+	Valid  int     `json:"valid"` // checksum-valid prefix of the header's generation
+	Hdr    int     `json:"hdr"`   // salt-1 of the WAL header (0 = no WAL)
+	Dbf    []int   `json:"dbf"`   // page ids of the database file
+	ToEnd  bool    `json:"toEnd"` // syncState.syncedToWALEnd
+	LastOK bool    `json:"lastOK"`
+	Last   LtxObs  `json:"last"` // newest local level-0 file
+	Pos    int     `json:"pos"`
+}
+
+func EmptyPre() PreState {
+	return PreState{Wal: [][]int{}, Dbf: []int{}, Last: LtxObs{Pgs: []int{}, Ids: []int{}, Err: "none"}}
+}
+
+func ObservePre(dbPath, metaL0 string, ps int, d *Dict) PreState {
+	p := EmptyPre()
+	p.Has = true
+	if b, err := os.ReadFile(dbPath + "-wal"); err == nil && len(b) >= 32 {
+		p.Hdr = int(binary.BigEndian.Uint32(b[16:]))
+		for off := 32; off+24+ps <= len(b); off += 24 + ps {
+			h := b[off : off+24]
+			p.Wal = append(p.Wal, []int{int(binary.BigEndian.Uint32(h[0:])), d.Page(b[off+24 : off+24+ps]),
+				int(binary.BigEndian.Uint32(h[4:])), int(binary.BigEndian.Uint32(h[8:]))})
+		}
+	}
+	p.Valid = ObserveWAL(dbPath+"-wal", ps, d).Valid
+	if st, err := ReadPages(dbPath, ps, d); err == nil {
+		p.Dbf = st.Pg
+	}
+	ents, _ := os.ReadDir(metaL0)
+	best := ""
+	for _, e := range ents {
+		if strings.HasSuffix(e.Name(), ".ltx") && e.Name() > best {
+			best = e.Name()
+		}
+	}
+	if best != "" {
+		if fh, err := os.Open(filepath.Join(metaL0, best)); err == nil {
+			p.Last = DecodeLTX(fh, 0, ps, d)
+			fh.Close()
+			p.LastOK = p.Last.Err == "none"
+			p.Pos = p.Last.Max
+		}
+	}
+	return p
 }
